@@ -145,7 +145,10 @@ class G(object):
     def login(self, sp, idp, p, rb=None, sign_req=None, resp_kw=None, gap=1.0, deliver=True):
         f = self.new_flow()
         rb = rb or self.r.pick(["redirect", "post"])
-        self.ev("start", f=f, sp=sp["name"], idp=idp["name"], rb=rb, sign=sign_req)
+        extra = {}
+        if not sp.get("no_redirect_acs") and self.r.chance(0.2):
+            extra["resp_binding"] = "redirect"      # the SP asks for the answer over HTTP-Redirect
+        self.ev("start", f=f, sp=sp["name"], idp=idp["name"], rb=rb, sign=sign_req, **extra)
         self.tick(gap)
         self.ev("req", f=f)
         self.tick(gap)
